@@ -1459,6 +1459,39 @@ func ruleNPresence(c *engine.Context) *report.Rule {
 			}
 		}
 	}
+	// the same for a value a step selected: whether a step selected anything is what the step
+	// returned (its error) or how many results its sink holds — an element of the sink that is
+	// null was selected all the same
+	for _, fn := range p.Funcs {
+		if fn.Blocks == nil || !p.Eval[fn] {
+			continue
+		}
+		n := 0
+		for _, b := range fn.Blocks {
+			for _, ins := range b.Instrs {
+				ld, ok := ins.(*ssa.UnOp)
+				if !ok || ld.Op != token.MUL {
+					continue
+				}
+				ia, ok := ld.X.(*ssa.IndexAddr)
+				if !ok {
+					continue
+				}
+				sl, ok := ia.X.(*ssa.UnOp)
+				if !ok || sinkResultVar(p, sl.X) == nil {
+					continue
+				}
+				n++
+				r.Instances++
+				bad := nilComparisonOf(ld, map[ssa.Value]bool{})
+				r.Oblige(bad == nil)
+				if bad != nil {
+					r.Violation(fmt.Sprintf("%s: selected value #%d compared with nil", load.FuncName(fn), n), p.RelPos(bad.Pos()),
+						"%s takes a value a step has selected out of the result sink and compares it with nil to decide whether anything was selected: a selected null is then treated as nothing (an operand that is present with the value null behaves like a missing one)", load.FuncName(fn))
+				}
+			}
+		}
+	}
 	return r
 }
 
